@@ -78,6 +78,10 @@ func verifH_C12_states() {
 	}
 	_, _, rerr := c.ReadSlices()
 	verifAssert(errors.Is(rerr, ErrClosed), "C12: ReadSlices after close must report ErrClosed")
+	// the read loop of the package example ends on a nil ReadBackoff: it must be nil
+	// for ErrClosed whatever state the client was closed in
+	verifAssert(c.ReadBackoff(rerr) == nil, "C14: ReadBackoff is not nil for the ErrClosed that ReadSlices reports after Close/Disconnect (a read loop would poll the closed client for ever)")
+	verifAssert(c.Backoff(rerr) == nil, "C14: Backoff is not nil for ErrClosed")
 	_, _, rerr = c.ReadSlices()
 	verifAssert(errors.Is(rerr, ErrClosed), "C12: second ReadSlices after close")
 	verifQuiesce()
